@@ -141,4 +141,52 @@ mod verif_driver_coercion {
         }
         println!("VERIF-CASES fn=expr_into_number n={n}");
     }
+
+    // ---- C14: the address family is total on every byte string and text a client can put into an address position
+    // (every header type of the Shelley / stake / Byron encodings x lengths around the 29- and 57-byte layouts, bech32 and
+    // non-bech32 texts, 28-byte hashes): Ok or Err, never a panic.  Where a reward account is built from a stake address it
+    // is that address (the ledger orders withdrawals by it).
+    // BOUND: 21 header bytes x 11 lengths as Address and Bytes expressions, 8 texts, hashes of 6 lengths, 2 networks.
+    #[test]
+    fn address_family_is_total() {
+        let mut n = 0;
+        let headers = [0x00u8, 0x01, 0x10, 0x11, 0x20, 0x21, 0x30, 0x31, 0x40, 0x41, 0x50, 0x60, 0x61, 0x70, 0x71, 0x82, 0x90, 0xe0, 0xe1, 0xf0, 0xff];
+        let lens = [0usize, 1, 2, 28, 29, 30, 56, 57, 58, 64, 100];
+        let mut exprs: Vec<(String, tir::Expression, Option<Vec<u8>>)> = vec![];
+        for h in headers { for l in lens {
+            let mut b = vec![h; l.min(1)];
+            b.extend((1..l).map(|i| (i * 5 + h as usize) as u8));
+            exprs.push((format!("Address(header {h:#04x}, {l} bytes)"), tir::Expression::Address(b.clone()), Some(b.clone())));
+            exprs.push((format!("Bytes(header {h:#04x}, {l} bytes)"), tir::Expression::Bytes(b.clone()), Some(b)));
+        } }
+        for t in ["", "addr1", "addr1qx0rs5qrvx9qkndwu0w88t0xghgy3f53ha76kpx8uf496m9rn2ursdm3r0fgf5pmm4lpufshl8lquk5yykg4pd00hp6quf2hh2", "stake1uyehkck0lajq8gr28t9uxnuvgcqrc6070x3k9r8048z8y5gh6ffgw", "addr_test1vz", "0x61", "\u{e9}\u{e9}", "Ae2tdPwUPEZ"] {
+            exprs.push((format!("String({t:?})"), tir::Expression::String(t.to_string()), None));
+        }
+        for l in [0usize, 1, 27, 28, 29, 32] { exprs.push((format!("Hash({l} bytes)"), tir::Expression::Hash(vec![7; l]), None)); }
+        exprs.push(("Number".into(), tir::Expression::Number(1), None));
+        exprs.push(("None".into(), tir::Expression::None, None));
+        for (desc, e, bytes) in &exprs {
+            for network in [Network::Testnet, Network::Mainnet] {
+                n += 1;
+                if let Err(p) = quiet(|| expr_into_address(e, network).map(|_| ())) { witness("cardano_coercion/expr_into_address#reachable-panic", "expr_into_address", desc.clone(), format!("panic:{}", p.chars().take(80).collect::<String>()), "Ok or Err"); }
+                if let Err(p) = quiet(|| expr_into_stake_credential(e, network).map(|_| ())) { witness("cardano_coercion/expr_into_stake_credential#reachable-panic", "expr_into_stake_credential", desc.clone(), format!("panic:{}", p.chars().take(80).collect::<String>()), "Ok or Err"); }
+                match quiet(|| expr_into_reward_account(e, network)) {
+                    Err(p) => witness("cardano_coercion/expr_into_reward_account#reachable-panic", "expr_into_reward_account", desc.clone(), format!("panic:{}", p.chars().take(80).collect::<String>()), "Ok or Err"),
+                    Ok(Ok(r)) => if let Some(b) = bytes {
+                        // a stake address (header 0xe. / 0xf., 29 bytes) is its own reward account
+                        if b.len() == 29 && (b[0] >> 4 == 0xe || b[0] >> 4 == 0xf) && r.to_vec() != *b {
+                            witness("cardano_coercion/expr_into_reward_account#postcondition", "expr_into_reward_account", desc.clone(), hex::encode(r.to_vec()), "the stake address itself");
+                        }
+                    },
+                    Ok(Err(_)) => {}
+                }
+            }
+            n += 1;
+            if let Err(p) = quiet(|| expr_into_address_keyhash(e).map(|_| ())) { witness("cardano_coercion/expr_into_address_keyhash#reachable-panic", "expr_into_address_keyhash", desc.clone(), format!("panic:{}", p.chars().take(80).collect::<String>()), "Ok or Err"); }
+        }
+        println!("VERIF-CASES fn=expr_into_address n={n}");
+        println!("VERIF-CASES fn=expr_into_stake_credential n={n}");
+        println!("VERIF-CASES fn=expr_into_reward_account n={n}");
+        println!("VERIF-CASES fn=expr_into_address_keyhash n={n}");
+    }
 }
